@@ -149,7 +149,7 @@ func ruleC14Families(c *Ctx) {
 			return
 		}
 		cal := call.Call.StaticCallee()
-		if cal == nil || pkgOf(cal) != modPath+"/git" || !strings.HasPrefix(cal.Name(), "Config") || len(call.Call.Args) < 2 {
+		if cal == nil || pkgOf(cal) != modPath+"/git" || !strings.HasPrefix(refName(cal), "Config") || len(call.Call.Args) < 2 {
 			return
 		}
 		key, ok := constStr(call.Call.Args[1])
@@ -514,7 +514,7 @@ func ruleC14Aliases(c *Ctx) {
 	})
 	combines := 0
 	allInstrs(set, func(in ssa.Instruction) {
-		if call, ok := in.(*ssa.Call); ok && call.Call.IsInvoke() && call.Call.Method.Name() == "Combine" {
+		if call, ok := in.(*ssa.Call); ok && call.Call.IsInvoke() && mname(call.Call.Method) == "Combine" {
 			combines++
 		}
 	})
@@ -591,6 +591,44 @@ func ruleC14Aliases(c *Ctx) {
 			okFilter = true
 		}
 	})
+	// which groups it accepts: exactly the defined ones, as @G does (a group
+	// without rules of its own is the union of its subgroups, not undefined)
+	badCond := ""
+	for _, b := range gset.Blocks {
+		if len(b.Instrs) == 0 {
+			continue
+		}
+		iff, ok := b.Instrs[len(b.Instrs)-1].(*ssa.If)
+		if !ok {
+			continue
+		}
+		cond, _ := normCond(iff.Cond, true)
+		switch x := cond.(type) {
+		case *ssa.Extract:
+			if _, isLookup := x.Tuple.(*ssa.Lookup); isLookup && x.Index == 1 {
+				continue
+			}
+		case *ssa.BinOp:
+			if x.Op == token.EQL || x.Op == token.NEQ {
+				if s, isStr := constStr(x.Y); isStr && s == "" {
+					continue
+				}
+				// the looked-up pointer itself (never nil in the map)
+				if isNilConst(x.Y) {
+					if ex, isEx := x.X.(*ssa.Extract); isEx {
+						if _, isLookup := ex.Tuple.(*ssa.Lookup); isLookup && ex.Index == 0 {
+							continue
+						}
+					}
+				}
+			}
+		}
+		badCond = strings.TrimSpace(cond.String())
+		c.violate("C14.aliases", "refgroup-alias:defined", iff.Pos(), fnName(gset), "--refgroup G accepts or rejects G on a condition other than G being defined (`"+badCond+"`), which --include @G does not test: the two spellings differ for such groups")
+	}
+	if badCond == "" {
+		c.hold("C14.aliases", "refgroup-alias:defined", gset.Pos(), "--refgroup G fails only for an undefined (or empty) G")
+	}
 	if okComb && okFilter {
 		c.hold("C14.aliases", "refgroup-alias", gset.Pos(), "--refgroup G folds refGroupFilter{G} with Include, as --include @G does")
 	} else {
@@ -978,7 +1016,7 @@ func ruleC19Footnotes(c *Ctx) {
 		call := ci.(*ssa.Call)
 		reaches := false
 		for _, r := range *call.Referrers() {
-			if rc, ok := r.(*ssa.Call); ok && rc.Call.StaticCallee() != nil && rc.Call.StaticCallee().Name() == "formatRow" {
+			if rc, ok := r.(*ssa.Call); ok && rc.Call.StaticCallee() != nil && refName(rc.Call.StaticCallee()) == "formatRow" {
 				reaches = true
 			}
 		}
